@@ -641,6 +641,10 @@ def evalInterp (f : Expr → M Value) : List (String × Option Expr) → M Strin
     let v ← f e
     let x ← liftPrint (match v with
       | .str t _ => if plainText t then .ok t else .error .unsupported
+      -- strings nested in an interpolated list or map are unquoted too: outside the model
+      | .list .. => .error .unsupported
+      | .arglist .. => .error .unsupported
+      | .map _ => .error .unsupported
       | v => v.toCss)
     let t ← evalInterp f r
     pure (s ++ x ++ t)
